@@ -1291,6 +1291,19 @@ def evaluate(t, env, memo=None):
             r = list(zip(*[evaluate(a, env, memo) for a in t.args]))
         elif op == "range":
             r = range(*[evaluate(a, env, memo) for a in t.args])
+        elif op == "call:itertools.chain.from_iterable" and len(t.args) == 1:
+            import itertools as _it
+            src_ = evaluate(t.args[0], env, memo)
+            if not isinstance(src_, (list, tuple)):
+                raise CannotEval(repr(t)[:120])
+            r = list(_it.chain.from_iterable(src_))
+        elif op in ("call:bytearray", "call:bytes") and len(t.args) == 1:
+            src_ = evaluate(t.args[0], env, memo)
+            if isinstance(src_, (list, tuple)) and all(isinstance(x_, int) and not isinstance(x_, bool) for x_ in src_) or \
+                    isinstance(src_, (bytes, bytearray, memoryview)):
+                r = bytearray(src_) if op == "call:bytearray" else bytes(src_)
+            else:
+                raise CannotEval(repr(t)[:120])
         elif op in _ITERTOOLS_PURE and t.args:
             import itertools as _it
             vals_ = []
